@@ -1676,3 +1676,246 @@ def c12_r7(ctx, f, rid="C12.R7"):
 def re_key(s_):
     import re
     return re.sub(r"\d+", "N", s_).replace(" ", "_")
+
+
+# ---------------------------------------------------------------------------------------------------------------------
+# C11.R8: mask selection with the stages summarised and the penalties supplied by an oracle
+# C01.R6: composition of the pipeline in placement::create_matrix
+# ---------------------------------------------------------------------------------------------------------------------
+
+QRC = "qr::QRCode"
+
+
+def _qr_fields(f):
+    return [fl["name"] for fl in f.adts[QRC]["variants"][0]["fields"]]
+
+
+def _qr_make(f, data, size):
+    vals = {"data": data, "size": size, "version": peval.NONE, "ecl": peval.NONE, "mask": peval.NONE, "mode": peval.NONE}
+    names = _qr_fields(f)
+    if set(names) - set(vals):
+        return None
+    return ("adt", QRC, 0, "QRCode", tuple(vals[n] for n in names))
+
+
+def _qr_get(f, q, name):
+    return q[4][_qr_fields(f).index(name)]
+
+
+def _qr_set(f, q, name, v):
+    i = _qr_fields(f).index(name)
+    return q[:4] + (q[4][:i] + (v,) + q[4][i + 1:],)
+
+
+def _selection_run(f, version, ecl, forced, oracle):
+    """-> (kind, info): info = dict(result data token, result.mask, out mask, scored list)"""
+    pe = peval.PEval(f, max_steps=400000)
+    scored = []
+    cq_tok = ("tok", ("codewords",))
+    cq = ("adt", CQ, 0, "CompactQR", (TOP, cq_tok))
+
+    def upd(pe_, st, ref_, fn_):
+        q = peval._deref(pe_, st, ref_)
+        if q == TOP or q[0] != "adt" or q[1] != QRC:
+            raise fold._Abort("top", "stage called on something other than a QRCode")
+        pe_.store_ptr(st, ref_[1], _qr_set(f, q, "data", ("tok", fn_(_qr_get(f, q, "data")))))
+        return peval.UNIT
+
+    def s_blank(pe_, st, a, t):
+        return _qr_make(f, ("tok", ("blank", to_py(a[0]))), fold.mk_int("usize", ref.side(version)))
+
+    def s_place(pe_, st, a, t):
+        bits = peval._deref(pe_, st, a[1])
+        return upd(pe_, st, a[0], lambda d: ("placed", d, bits[4][1] if bits != TOP and bits[0] == "adt" else None))
+
+    def s_transpose(pe_, st, a, t):
+        q = peval._deref(pe_, st, a[0])
+        return _qr_set(f, q, "data", ("tok", ("transpose", _qr_get(f, q, "data"))))
+
+    def s_mask(pe_, st, a, t):
+        return upd(pe_, st, a[0], lambda d: ("masked", d, to_py(a[1])))
+
+    def s_format(pe_, st, a, t):
+        return upd(pe_, st, a[0], lambda d: ("format", d, to_py(a[1]), to_py(a[2])))
+
+    def s_score(pe_, st, a, t):
+        x, y = peval._deref(pe_, st, a[0]), peval._deref(pe_, st, a[1])
+        dx, dy = _qr_get(f, x, "data"), _qr_get(f, y, "data")
+        scored.append((dx, dy))
+        m = dx[1][2] if dx != TOP and dx[0] == "tok" and dx[1][0] == "masked" else None
+        return fold.mk_int("u32", oracle.get(m, 999))
+
+    pe.summaries.update({"default::create_matrix": s_blank, "placement::place_on_matrix_data": s_place, "default::transpose": s_transpose,
+                         "datamasking::mask": s_mask, "default::create_matrix_format_info": s_format, "score::score": s_score})
+    mopt = _opt(None if forced is None else mk_enum(MASK, forced))
+    r = pe.run("placement::place_on_matrix", [("ref", ("const", cq)), mk_enum(ECL, ecl), mk_enum(VERSION, "V%02d" % version), ("cell", 0)],
+               cells=[mopt])
+    if r.kind != "ret":
+        return r.kind, r.why
+    q = r.value
+    if q == TOP or q[0] != "adt" or q[1] != QRC:
+        return "top", "place_on_matrix does not return a QRCode"
+    return "ret", {"data": _qr_get(f, q, "data"), "mask": to_py(_qr_get(f, q, "mask")), "out": to_py(r.cells[0]), "scored": scored}
+
+
+def c11_r8(ctx, f, rid="C11.R8", report_d1=False):
+    ctx.rule(rid, "mask selection by partial evaluation with the stages summarised and penalties supplied by an oracle: all eight "
+                  "candidates are the placed matrix masked once, the emitted mask has minimal penalty unless one is forced, and it is "
+                  "the mask written to the format information, applied, reported and returned")
+    fn = anchor_fn(ctx, rid, f, "placement::place_on_matrix")
+    if not fn:
+        return None
+    if QRC not in f.adts or _qr_make(f, TOP, TOP) is None:
+        ctx.abstain(rid, "QRCode has fields the rule does not know", where_fn(fn))
+        return None
+    version, ecl = 5, "Q"
+    placed = ("tok", ("placed", ("tok", ("blank", "V%02d" % version)), ("tok", ("codewords",))))
+    groups = _Groups()
+    und = _Und()
+    n_ok = 0
+    d1_seen = False
+    runs = []
+    for k, mk in enumerate(ref.MASKS):
+        runs.append(("min=%s" % mk, None, {m: (10 if m == mk else 100 + i) for i, m in enumerate(ref.MASKS)}, {mk}))
+    runs.append(("all-equal", None, {m: 50 for m in ref.MASKS}, set(ref.MASKS)))
+    runs.append(("two-minima", None, {m: (10 if m in ("DiagonalLines", "Meadow") else 70) for m in ref.MASKS}, {"DiagonalLines", "Meadow"}))
+    for k, mk in enumerate(ref.MASKS):
+        other = ref.MASKS[(k + 3) % 8]
+        runs.append(("forced=%s,min=%s" % (mk, other), mk, {m: (10 if m == other else 100 + i) for i, m in enumerate(ref.MASKS)}, {mk}))
+    for name, forced, oracle, accept in runs:
+        kind, info = _selection_run(f, version, ecl, forced, oracle)
+        if kind == "diverge":
+            groups.add("panics", name, "a symbol", info)
+            continue
+        if kind != "ret":
+            und.add(info, name)
+            continue
+        bad = []
+        cands = [dx for dx, dy in info["scored"]]
+        want_c = [("tok", ("masked", placed, m)) for m in ref.MASKS]
+        if sorted(map(repr, cands)) != sorted(map(repr, want_c)):
+            bad.append(("candidates", "the placed matrix masked once with each of the 8 patterns", [str(c)[:90] for c in cands if c not in want_c][:2] or
+                        "%d candidates" % len(cands)))
+        for dx, dy in info["scored"]:
+            if dy != ("tok", ("transpose", dx)):
+                d1_seen = True
+        dat = info["data"]
+        chosen = dat[1][2] if dat != TOP and dat[0] == "tok" and dat[1][0] == "masked" else None
+        if chosen not in accept:
+            bad.append(("choice", sorted(accept), chosen))
+        exp = ("tok", ("masked", ("tok", ("format", placed, ecl, chosen)), chosen))
+        if dat != exp:
+            bad.append(("final-symbol", "format information for (level, chosen mask) written on the placed matrix, then that mask applied once",
+                        str(dat)[:160]))
+        sm = {"variant": "Some", "fields": [chosen]}
+        if info["mask"] != sm or info["out"] != sm:
+            bad.append(("reported-mask", chosen, (info["mask"], info["out"])))
+        if bad:
+            for b in bad[:2]:
+                groups.add(b[0], name, b[1], b[2])
+        else:
+            n_ok += 1
+    if n_ok:
+        ctx.ok(rid, "%d selection scenarios (unique minimum at each pattern, ties, each pattern forced) behave as documented" % n_ok, n=n_ok)
+    groups.emit(ctx, rid, "placement::place_on_matrix", where_fn(fn), fn.path,
+                "the mask selection does not try the eight patterns on the same placed codewords / emit a minimal-penalty mask / honour a "
+                "forced mask / record and apply the same mask (first scenario shown)")
+    und.emit(ctx, rid, "place_on_matrix", where_fn(fn))
+    try:
+        ctx.inventory["c11_r8_unmasked_transpose_scored"] = bool(d1_seen)
+    except Exception:  # noqa: BLE001
+        pass
+    if report_d1:
+        c11_d1_if_missing(ctx, f, d1_seen)
+    return not und.count
+
+
+def c11_d1_if_missing(ctx, f, d1_seen=None):
+    """the column half of the penalty is computed on a copy that was never masked (known finding D1): reported under the key of
+    C11.R2, once, whichever rule saw it"""
+    if d1_seen is None:
+        d1_seen = ctx.inventory.get("c11_r8_unmasked_transpose_scored")
+    if not d1_seen or any(v.key == "C11.R2/placement::place_on_matrix/score.arg1" for v in ctx.violations):
+        return
+    fn = f.fn("placement::place_on_matrix")
+    if "C11.R2" not in ctx.rules:
+        ctx.rule("C11.R2", "each candidate is ranked by its own penalty (every score argument depends on the masked candidate)")
+    ctx.fail("C11.R2", "placement::place_on_matrix/score.arg1", where_fn(fn), fn.path, "arg#1 of score::score",
+             "the transposed matrix handed to the scorer is the transpose of the unmasked placed matrix, not of the candidate",
+             expected="transpose(masked candidate)", found="transpose(placed)")
+
+
+def c01_r6(ctx, f, rid="C01.R6"):
+    ctx.rule(rid, "pipeline composition by partial evaluation with the stages summarised: the symbol is place_on_matrix(structure(encode("
+                  "input, level, mode, version), level, version) as an 8*codewords+remainder bit string, level, version, mask), reporting "
+                  "the same level, mode and version (3 x 4 x 40 configurations)")
+    fn = anchor_fn(ctx, rid, f, "placement::create_matrix", ["&[u8]", ECL, MODE, VERSION, "&mut std::option::Option<datamasking::Mask>"], QRC)
+    if not fn:
+        return None
+    if QRC not in f.adts or _qr_make(f, TOP, TOP) is None:
+        ctx.abstain(rid, "QRCode has fields the rule does not know", where_fn(fn))
+        return None
+    groups = _Groups()
+    und = _Und()
+    n_ok = 0
+    for mode in ref.MODES:
+        for l in ref.LEVELS:
+            for v in range(1, 41):
+                inst = "%s/%s/V%02d" % (mode, l, v)
+                pe = peval.PEval(f, max_steps=200000)
+                seen = {}
+
+                def s_encode(pe_, st, a, t):
+                    seen["encode"] = (peval._deref(pe_, st, a[0]), to_py(a[1]), to_py(a[2]), to_py(a[3]))
+                    return ("adt", CQ, 0, "CompactQR", (TOP, ("tok", ("encoded",))))
+
+                def s_structure(pe_, st, a, t):
+                    seen["structure"] = (peval._deref(pe_, st, a[0]), to_py(a[1]), to_py(a[2]))
+                    return ("tok", ("structured",))
+
+                def s_to_vec(pe_, st, a, t):
+                    return peval._deref(pe_, st, a[0])
+
+                def s_pom(pe_, st, a, t):
+                    bits = peval._deref(pe_, st, a[0])
+                    seen["place"] = (bits, to_py(a[1]), to_py(a[2]), peval._deref(pe_, st, a[3]))
+                    return _qr_make(f, ("tok", ("symbol",)), fold.mk_int("usize", ref.side(v)))
+                pe.summaries.update({"encode::encode": s_encode, "polynomials::structure": s_structure, "std::slice::<impl [T]>::to_vec": s_to_vec,
+                                     "placement::place_on_matrix": s_pom})
+                r = pe.run(fn.path, [("ref", ("const", ("symvec", 5))), mk_enum(ECL, l), mk_enum(MODE, mode), mk_enum(VERSION, "V%02d" % v),
+                                     ("cell", 0)], cells=[_opt(None)])
+                if r.kind == "diverge":
+                    groups.add("panics", inst, "a symbol", r.why)
+                    continue
+                if r.kind != "ret" or r.value == TOP or r.value[0] != "adt":
+                    und.add(r.why or "result unknown", inst)
+                    continue
+                bad = []
+                vv = "V%02d" % v
+                if seen.get("encode") != (("symvec", 5), l, mode, vv):
+                    bad.append(("encode-arguments", ("input", l, mode, vv), str(seen.get("encode"))[:120]))
+                if seen.get("structure") != (("tok", ("encoded",)), l, vv):
+                    bad.append(("structure-arguments", ("encode(..).data", l, vv), str(seen.get("structure"))[:120]))
+                pl = seen.get("place")
+                nbits = 8 * ref.total_codewords(v) + ref.remainder_bits(v)
+                ok_bits = pl is not None and pl[0] != TOP and pl[0][0] == "adt" and pl[0][4][1] == ("tok", ("structured",)) and \
+                    pl[0][4][0] == fold.mk_int("usize", nbits)
+                if not ok_bits or pl[1:3] != (l, vv):
+                    bad.append(("placement-arguments", ("structure(..) as %d bits" % nbits, l, vv), str(pl)[:160]))
+                q = r.value
+                rep = (to_py(_qr_get(f, q, "mode")), to_py(_qr_get(f, q, "ecl")), to_py(_qr_get(f, q, "version")), _qr_get(f, q, "data"))
+                want = ({"variant": "Some", "fields": [mode]}, {"variant": "Some", "fields": [l]}, {"variant": "Some", "fields": [vv]},
+                        ("tok", ("symbol",)))
+                if rep != want:
+                    bad.append(("reported-fields", "mode/level/version used, matrix of place_on_matrix", str(rep)[:160]))
+                if bad:
+                    groups.add(bad[0][0], inst, bad[0][1], bad[0][2])
+                else:
+                    n_ok += 1
+    if n_ok:
+        ctx.ok(rid, "%d configurations: stages chained on the same level/mode/version, bit string of 8*codewords+remainder bits" % n_ok, n=n_ok)
+    groups.emit(ctx, rid, fn.path, where_fn(fn), fn.path, "the pipeline stages are not chained on the same input / level / mode / version, or "
+                "the reported fields differ from the values used (first configuration shown)")
+    und.emit(ctx, rid, "placement::create_matrix", where_fn(fn))
+    ctx.floor(rid, "configurations", n_ok + und.count + sum(len(e["insts"]) for e in groups.g.values()), 480)
+    return not und.count
